@@ -13,8 +13,12 @@
              mean / covariance of the model output on the training data, Gram matrix and eigen-equation residual
              of the PCA directions, LDA solver residual; these must vanish up to 1e-9 relative.
   monitor  : independent Python (Fractions) evaluation of the property on the C++ output for all anchored
-             classes, incl. the ones not modelled (FisherLDA, ZCA on rank-deficient data, PCA small-sample branch,
-             encoder/decoder, batch partitions, weight scaling).
+             classes, incl. the ones not modelled (FisherLDA, PCA small-sample branch, encoder/decoder, batch
+             partitions, weight scaling).  ZCA on rank-deficient data: output covariance = target variance times the
+             exact orthogonal projector onto the range of the covariance (C15_zca_rank_deficient_projector_partial).
+  open findings (stable keys, listed in known_findings.json by the lead): FisherLDA::train:criterion,
+             LDA::train(weighted):solve:singular.  corpus/C15 holds the failing inputs of these and, as regression
+             inputs, of the defects repaired in /repo (unit interval, zero covariance, ZCA rank, PCA d > n, Fisher mean).
 A case is a GROUP of lines sharing the data (different batch partitions / scaled weights / translated copy)."""
 import os, sys, re, math
 from fractions import Fraction as Fr
@@ -150,6 +154,16 @@ def fdet(M):
             f = M[i][c] / M[c][c]
             if f: M[i] = [a - f * b for a, b in zip(M[i], M[c])]
     return det
+def fproj(C):
+    """exact orthogonal projector onto the range (column space) of the symmetric matrix C"""
+    d = len(C); cols = []
+    for j in range(d):
+        cand = cols + [[C[i][j] for i in range(d)]]
+        if frank(cand) == len(cand): cols = cand
+    if not cols: return [[Fr(0)] * d for _ in range(d)]
+    G = [[sum(a * b for a, b in zip(u, v)) for v in cols] for u in cols]                 # B^T B
+    X = fsolve(G, [[u[i] for u in cols] for i in range(d)])                                # (B^T B)^-1 B^T, column i
+    return [[sum(cols[r][a] * X[b][r] for r in range(len(cols))) for b in range(d)] for a in range(d)]
 def mat(v, r, c): return [v[i * c:(i + 1) * c] for i in range(r)]
 def mm(A, B): return [[sum(a * b for a, b in zip(r, col)) for col in zip(*B)] for r in A]
 def tr(A): return [list(r) for r in zip(*A)]
@@ -234,10 +248,19 @@ def mon_line(c, o):
             B("%s::train:%s:non-finite" % (name, "zero-covariance" if rk == 0 else "rank-deficient" if rk < d else "full-rank"), "non-finite model (covariance rank %d of %d, %s)" % (rk, d, shape)); return bad
         r = o["rows"]
         if k == "W" and r != rk: B(name + "::train:rank", "model has %d rows, covariance rank is %d (%s)" % (r, rk, shape))
-        if k == "Z" and rk < d:
-            B(name + "::train:rank-deficient", "finite model on singular covariance: cannot be whitening"); return bad
+        # ZCA (d rows): identity on the range of the covariance, 0 on its null space, i.e. tv * orthogonal projector
+        # onto range(C) (= tv * I for full rank); Whitening (rank rows): tv * I
+        want = [[float(tv * x) for x in row] for row in fproj(C)] if k == "Z" else [[float(tv) if a == b else 0.0 for b in range(r)] for a in range(r)]
+        if k == "Z" and r != d: B(name + "::train:shape", "model has %d rows, expected %d" % (r, d)); return bad
         out = mat(o["out"], n, r); Wm = mat(o["mat"], r, d)
         sc = max(1.0, float(tv))
+        if k == "Z" and rk < d:
+            # zero on the null space of the covariance: W (I - P) = 0 (not visible in the outputs on the training data)
+            Pf = [[float(x) for x in row] for row in fproj(C)]; wmax = max(abs(x) for x in o["mat"]) or 1.0
+            WP = mm(Wm, Pf)
+            if any(abs(WP[a][b] - Wm[a][b]) > 1e-7 * wmax for a in range(r) for b in range(d)):
+                B(name + "::train:rank-deficient:null-space", "the model does not vanish on the null space of the covariance: max |W - W P| = %r (%s, covariance rank %d)" % (
+                    max(abs(WP[a][b] - Wm[a][b]) for a in range(r) for b in range(d)), shape, rk))
         for a in range(r):
             ca = [x[a] for x in out]; mu = sum(ca) / n
             msc = sum(abs(w * float(x)) for w, x in zip(Wm[a], m)) + 1
@@ -246,8 +269,9 @@ def mon_line(c, o):
             for b in range(a, r):
                 cb = [x[b] for x in out]; mub = sum(cb) / n
                 cv = sum((x - mu) * (y - mub) for x, y in zip(ca, cb)) / n
-                if abs(cv - (float(tv) if a == b else 0.0)) > 1e-7 * sc:
-                    B(name + "::train:covariance", "output covariance (%d,%d) = %r, expected %s (%s, target variance %s)" % (a, b, cv, tv if a == b else 0, shape, tv))
+                if abs(cv - want[a][b]) > 1e-7 * sc:
+                    B(name + "::train:%scovariance" % ("rank-deficient:" if rk < d else ""), "output covariance (%d,%d) = %r, expected %r = target variance %s times %s (%s, covariance rank %d)" % (
+                        a, b, cv, want[a][b], tv, "the orthogonal projector onto the range of the covariance" if k == "Z" else "the identity", shape, rk))
     elif k == "P":
         wh = c["args"][0] == "1"; mreq = int(c["args"][1]); meff = mreq if mreq else min(n, d)
         vc = o["vcols"]; V = mat(o["evec"], d, vc); ev = o["ev"]; Cf = [[float(x) for x in r] for r in C]
@@ -377,10 +401,14 @@ def mon_group(cs, os_):
     bad = []
     for i, (c, o) in enumerate(zip(cs, os_)):
         for key, msg in mon_line(c, o): bad.append((i, key, msg))
-    if bad: return bad
+    # the comparisons between the members are skipped for members that already fail on their own, except for the
+    # FisherLDA criterion finding (the directions are still a deterministic function of the scatter matrices)
+    soft = lambda i: all(key.startswith("FisherLDA::train:criterion") for j, key, _ in bad if j == i)
+    if not soft(0): return bad
     base = cs[0]; ob = os_[0]
     for i in range(1, len(cs)):
         c, o = cs[i], os_[i]
+        if not soft(i): continue
         if (o is None) != (ob is None): bad.append((i, "%s:batch-partition:exception" % c["kind"], "exception depends on the batch partition")); continue
         if o is None: continue
         rel = c.get("rel", "batch")
@@ -405,8 +433,12 @@ def mon_group(cs, os_):
                     bad.append((i, "LDA::train(weighted):weight-scale:%s" % key, "%s changes when all weights are multiplied by %s%s" % (key, f, " (power of 4: must be identical)" if exactly else ""))); break
         elif rel == "translate":
             # Fisher directions do not depend on the origin
-            if not same_vals(ob["mat"], o["mat"], 1e-7, False):
-                bad.append((i, "FisherLDA::train:translation", "directions change when the data is translated: %s vs %s" % (ob["mat"][:c["d"]], o["mat"][:c["d"]])))
+            # only the first K-1 rows: the K-th eigenvalue of Sw^-1 Sb is 0, its direction arbitrary (FisherLDA.h: at most K-1 dimensions)
+            d_ = c["d"]
+            for a in range(min(o["rows"], ob["rows"], c["K"] - 1)):
+                u, v = ob["mat"][a * d_:(a + 1) * d_], o["mat"][a * d_:(a + 1) * d_]
+                if not (same_vals(u, v, 1e-7, False) or same_vals(u, [-x for x in v], 1e-7, False)):
+                    bad.append((i, "FisherLDA::train:translation", "direction %d changes when the data is translated: %s vs %s" % (a, u, v))); break
     return bad
 
 # ------------------------------------------------------------------------------------------------ model vs implementation
@@ -456,11 +488,12 @@ def compare(c, o, mo):
     elif k in ("W", "Z"):
         if not allfinite(o): return []
         tv = fr(c["args"][0]); r = o["rows"]
+        want = [[float(tv * x) for x in row] for row in fproj(fcov(c["rows"]))] if k == "Z" and r == d else [[float(tv) if a == b else 0.0 for b in range(r)] for a in range(r)]
         for a in range(r):
             if abs(float(md["omean"][a])) > 1e-8 * (abs(o["off"][a]) + 1): D("model: mean of output %d = %.3e" % (a, float(md["omean"][a])))
             if not close(o["off"][a], md["coff"][a], 1e-9, abs(float(md["coff"][a])) + 1): D("offset[%d] model -W mean = %r impl %r" % (a, float(md["coff"][a]), o["off"][a]))
             for b in range(r):
-                if abs(float(md["ocov"][a * r + b]) - (float(tv) if a == b else 0)) > 1e-7 * max(1.0, float(tv)): D("model: covariance of outputs (%d,%d) = %r" % (a, b, float(md["ocov"][a * r + b])))
+                if abs(float(md["ocov"][a * r + b]) - want[a][b]) > 1e-7 * max(1.0, float(tv)): D("model: covariance of outputs (%d,%d) = %r" % (a, b, float(md["ocov"][a * r + b])))
     elif k == "P":
         for j in range(d):
             if not exact(o["mean"][j], md["mean"][j]): D("mean[%d]" % j)
@@ -720,27 +753,31 @@ def main():
         for kind, wgt in MIX:
             for _ in range(max(1, int(per * wgt))): groups.append(gen_group(ck.rng, kind, big))
     res = rn.run(groups)
-    nmon = ndis = 0; reported = {}; first_dis = None
+    nmon = ndis = 0; reported = {}; first_dis = None; unknown_groups = set(); nknown_hits = 0
     for gi, (cs, os_, mon, dis) in enumerate(res):
         if mon:
             nmon += 1
-            li, key, msg = mon[0]
-            if key in reported or len(reported) >= 24: continue
-            reported[key] = True
-            if ck.match_known(key) is not None:
-                ck.violation(key, {}, msg); continue
-            small = shrink(rn, groups[gi], key) if not ck.replay and gi >= ncorpus else groups[gi]   # corpus inputs are kept as stored
-            r2 = rn.run([small], "report", with_model=False)[0]
-            msg2 = next((m for _, k, m in r2[2] if k == key), msg)
-            cf = ck.write_replay("case_%d.txt" % gi, group_text(small))
-            ck.violation(key, {"case_file": cf, "case": [l for l, _ in small], "relations": [r for _, r in small],
-                               "implementation_output": rn.impl([small], "rep2")[0][0], "monitor": [m for _, _, m in r2[2]] or [msg],
-                               "replay_cmd": "python3 tools/c15.py --replay " + cf},
-                         "spec monitor fails on the implementation: [%s] %s" % (key, msg2))
+            seen = []
+            for li, key, msg in mon:
+                if key in seen: continue
+                seen.append(key)
+                if ck.match_known(key) is not None:
+                    ck.violation(key, {}, msg); nknown_hits += 1; continue
+                unknown_groups.add(gi)
+                if key in reported or len(reported) >= 24: continue
+                reported[key] = True
+                small = shrink(rn, groups[gi], key) if not ck.replay and gi >= ncorpus else groups[gi]   # corpus inputs are kept as stored
+                r2 = rn.run([small], "report", with_model=False)[0]
+                msg2 = next((m for _, k, m in r2[2] if k == key), msg)
+                cf = ck.write_replay("case_%d_%d.txt" % (gi, len(seen)), group_text(small))
+                ck.violation(key, {"case_file": cf, "case": [l for l, _ in small], "relations": [r for _, r in small],
+                                   "implementation_output": rn.impl([small], "rep2")[0][0], "monitor": [m for _, _, m in r2[2]] or [msg],
+                                   "replay_cmd": "python3 tools/c15.py --replay " + cf},
+                             "spec monitor fails on the implementation: [%s] %s" % (key, msg2))
         elif dis:
             ndis += 1
             if first_dis is None: first_dis = gi
-    if ndis and not nmon:
+    if ndis and not unknown_groups:
         # correspondence broken, monitor silent: search with more inputs of the disagreeing kinds
         kinds = sorted(set(res[gi][0][0]["kind"] for gi in range(len(res)) if res[gi][3]))
         extra = [gen_group(ck.rng, kd, True) for kd in kinds for _ in range(150)]
@@ -759,10 +796,11 @@ def main():
             ck.violation("correspondence", {"case_file": cf, "case": [l for l, _ in groups[first_dis]], "differences": [m for _, m in dis][:10],
                                             "replay_cmd": "python3 tools/c15.py --replay " + cf},
                          "correspondence C15Model vs trainers no longer checks (%d groups differ, e.g. %s); the spec monitor passes on every explored input" % (ndis, dis[0][1]), no_input=True)
-    known_only = nmon > 0 and not ck.violations
+    known_only = nmon > 0 and not unknown_groups
     ck.oblige("correspondence C15Model (exact rationals) = closed-form trainers, and spec monitor, on %d groups" % len(groups),
               (nmon == 0 and ndis == 0) or (known_only and ndis == 0),
-              "" if not (nmon or ndis) else "%d groups with monitor findings (%s), %d groups with model/implementation differences" % (nmon, ", ".join(sorted(reported)), ndis))
+              ("%d groups hit known findings only (%s)" % (nmon, ", ".join(k["id"] for k in ck.known_hits)) if known_only and not ndis else "") if not (unknown_groups or ndis)
+              else "%d groups with monitor findings (%s), %d groups with model/implementation differences" % (len(unknown_groups), ", ".join(sorted(reported)), ndis))
     lines = [l for G in groups for l, _ in G]
     kinds = {}
     for l in lines: kinds[l.split()[0]] = kinds.get(l.split()[0], 0) + 1
